@@ -27,6 +27,7 @@ struct vhost {
     char name[128];
     int conn_kind;
     long conn_at;
+    long conn_rel;              /* with `reltime 1`: delay of the connect result after connectBegin */
     int destroy_rc;
     int destroy_hang;
     struct script s[2];         /* 0 stdout, 1 stderr */
@@ -35,6 +36,7 @@ struct vhost {
     int want_efd;
     int connected;
 };
+extern int stub_connerr;        /* stub module reports connect failures the way xrcmd.c does */
 extern struct vhost vhosts[MAXHOSTS];
 extern int nvhosts;
 
